@@ -68,6 +68,9 @@ struct FVis {
 		if constexpr(D == 1) { op("data()"); using AP = typename multi::array<int, 1, Alloc<int>>::element_ptr; static_assert(std::is_same_v<std::decay_t<decltype(C.data())>, AP>, "array<T,1,A>::data() must be the allocator's pointer type");
 			for(L i2 = 0; i2 < C.size(); ++i2) mix(std::uint64_t(*(C.data() + i2))); mix(std::uint64_t(*(std::as_const(C).data() + (C.size() - 1))));
 			multi::array<int, 1, Alloc<int>> Z3; auto p0 = Z3.data(); mix(std::uint64_t(p0 == AP{})); multi::array<int, 1, Alloc<int>> Z4(C); Z4.clear(); auto p1 = Z4.data(); (void)p1; multi::array<int, 1, Alloc<int>> Z5(C); multi::array<int, 1, Alloc<int>> Z6(std::move(Z5)); auto p2 = Z5.data(); (void)p2; mix(std::uint64_t(Z6.size())); count("op:data()"); }
+		// whole-block assignment between references over the user's pointer type (array_ref = array_ref, A.elements() = B.elements()): only that type's own arithmetic and dereference, nothing past the end
+		op("array_ref=array_ref"); { using AT = multi::array<int, D, Alloc<int>>; using AP = typename AT::element_ptr; AT P1(C), P2(C); P2.elements()[0] += 3; P1.elements() = P2.elements(); mix(std::uint64_t(P1 == P2)); for(int e : P1.elements()) mix(std::uint64_t(e));
+			AT P3(C), P4(C); P4.elements()[0] += 5; multi::array_ref<int, D, AP> R3(P3.extensions(), P3.base()), R4(P4.extensions(), P4.base()); R3 = R4; mix(std::uint64_t(P3 == P4)); R3 = std::as_const(R4); std::move(R3) = R4; for(int e : P3.elements()) mix(std::uint64_t(e)); count("op:array_ref=array_ref"); }
 		// non-trivially destructible elements, including arrays that are (or become) empty
 		op("owning<string>");
 		{ using SA = multi::array<std::string, D, Alloc<std::string>>; SA S(v.extensions()); { L q = 0; for(auto& e : S.elements()) e = std::string(18, 'x') + std::to_string(q++); } SA S2(S); SA S3(S.rotated()); for(auto const& e : S3.elements()) mixs(e);
